@@ -101,9 +101,29 @@ func runVec(v *Vec) (res string) {
 			if e.K == 'i' || e.K == 'o' {
 				nport++
 				for _, in := range v.Inj {
-					if in.At == nport {
-						cpu.Interrupt = mkIntr(w, in.Intr.Type, in.Intr.Data)
+					if in.At != nport {
+						continue
 					}
+					if in.Intr.Type == 77 {
+						// the device installs a NEW breakpoint set as a whole (a debugger port): no data = nil, one byte = empty set,
+						// otherwise address pairs (hi, lo).  Run must look at the field as it is after each Step, exactly as a Step loop does
+						switch {
+						case len(in.Intr.Data) == 0:
+							cpu.BreakPoints = nil
+						default:
+							nb := map[uint16]struct{}{}
+							for j := 0; j+1 < len(in.Intr.Data); j += 2 {
+								nb[uint16(in.Intr.Data[j])<<8|uint16(in.Intr.Data[j+1])] = struct{}{}
+							}
+							cpu.BreakPoints = nb
+						}
+						w.bp0, w.bpNil = nil, cpu.BreakPoints == nil
+						for a := range cpu.BreakPoints {
+							w.bp0 = append(w.bp0, a)
+						}
+						continue
+					}
+					cpu.Interrupt = mkIntr(w, in.Intr.Type, in.Intr.Data)
 				}
 			}
 		}
@@ -205,6 +225,8 @@ func main() {
 		cmdMemKinds()
 	case "cpmpar":
 		cmdCPMPar()
+	case "cbraise":
+		cmdCBRaise()
 	case "par":
 		cmdPar(os.Args[2:])
 	case "ctx":
